@@ -107,6 +107,9 @@ def generate(seed, tier="quick"):
             k2["n_batches"] = common.gen_n_batches(rnd, k2.get("n_prior_samples") or N)
         op = {"id": oid, "op": "rejection", "data": 0, "lib": 0, "role": "accept", "rng_seed": rs, "kw": k2}
         op.update(p)
+        from . import sampling as _sampling
+
+        _sampling.add_arg_types(rnd, op, p=0.3)
         ops.append(op)
         oid += 1
     # clause (b) over HISTORIES: several file-path samplers with equal seeds make the same sequence of calls but
